@@ -1,6 +1,6 @@
 /-! Layer 2 of property C03: the wire format of `go.dedis.ch/protobuf` (v1.0.11) for a schema language
 — signed and unsigned integers of 32 and 64 bits, booleans, float64 (as its bit pattern), byte
-strings / strings, nested messages, repeated fields (packed for numbers, one entry per element
+strings / strings, byte arrays of fixed length, nested messages, repeated fields (packed for numbers, one entry per element
 otherwise) and optional pointers — transcribed from `encode.go` (`message`, `value`, `slice`,
 `sliceReflect`, `uvarint`, `svarint`, `u64`) and `decode.go` (`message`, `value`, `putvalue`,
 `decodeSignedInt`, `slice`) and from `encoding/binary` (`PutUvarint`, `Uvarint`).  Executable,
@@ -63,6 +63,9 @@ inductive Ty where
   | i32 | i64 | u32 | u64 | bool | f64
   /-- `[]byte` or `string` -/
   | bytes
+  /-- `[n]byte`: a byte array of fixed length (the ids of onet: `[16]byte`); on the wire like a byte
+  string, the decoder insists on the length (decode.go:437-445) -/
+  | arr (n : Nat)
   /-- a struct; field numbers are positions, from 1 -/
   | msg (fields : List Ty)
   /-- a slice -/
@@ -115,6 +118,7 @@ def zero : Ty → Val
   | .bool => .bool false
   | .f64 => .f64 0
   | .bytes => .bytes []
+  | .arr n => .bytes (List.replicate n 0)
   | .msg ts => .msg (zeros ts)
   | .rep _ => .rep []
   | .opt _ => .opt none
@@ -150,6 +154,7 @@ def encField (key : Nat) : Ty → Val → List Nat
   | .bool, .bool b => uvarint key ++ uvarint (if b then 1 else 0)
   | .f64, .f64 x => uvarint (key + 1) ++ le64 x
   | .bytes, .bytes b => lenDelim key b
+  | .arr _, .bytes b => lenDelim key b
   | .msg ts, .msg vs => lenDelim key (encMsg 1 ts vs)
   | .opt _, .opt none => []
   | .opt t, .opt (some v) => encField key t v
@@ -208,6 +213,7 @@ def putScalar : Ty → Nat → Nat → List Nat → Option Val
   | .u64, wt, v, _ => (decodeUnsigned wt v).map .nat
   | .f64, wt, v, _ => if wt ≠ 1 then none else some (.f64 v)
   | .bytes, wt, _, vb => if wt ≠ 2 then none else some (.bytes vb)
+  | .arr n, wt, _, vb => if wt ≠ 2 then none else if vb.length ≠ n then none else some (.bytes vb)
   | _, _, _, _ => none
 
 /-- the wire type of the elements of a packed slice (decode.go:411-436) -/
@@ -255,6 +261,7 @@ def putValue (sub : List Ty → List Nat → Option (List Val)) : Ty → Val →
   | .bool, _, wt, v, vb => putScalar .bool wt v vb
   | .f64, _, wt, v, vb => putScalar .f64 wt v vb
   | .bytes, _, wt, v, vb => putScalar .bytes wt v vb
+  | .arr n, _, wt, v, vb => putScalar (.arr n) wt v vb
 
 /-- `decoder.message`, the loop over the entries of a buffer: `cur` = the struct as filled so far,
 `fi` = the field cursor (it only moves forward). The fuel bounds the bytes of the buffer. -/
@@ -284,7 +291,7 @@ def decode (ts : List Ty) (buf : List Nat) : Option (List Val) := decMsg (buf.le
 /-! ### line protocol: schema and value text -/
 namespace Text
 
-/-- `i32 i64 u32 u64 b f y`, `m(T,…)`, `rT` (slice), `oT` (pointer) -/
+/-- `i32 i64 u32 u64 b f y`, `a<n>` (byte array), `m(T,…)`, `rT` (slice), `oT` (pointer) -/
 def parseTy : Nat → List Char → Option (Ty × List Char)
   | 0, _ => none
   | fuel + 1, cs =>
@@ -296,6 +303,11 @@ def parseTy : Nat → List Char → Option (Ty × List Char)
     | 'b' :: r => some (.bool, r)
     | 'f' :: r => some (.f64, r)
     | 'y' :: r => some (.bytes, r)
+    | 'a' :: r =>
+      -- `a<n>`: a byte array of n bytes
+      let ds := r.takeWhile Char.isDigit
+      if ds.isEmpty || ds.length > 4 then none
+      else (String.ofList ds).toNat?.map fun n => (.arr n, r.dropWhile Char.isDigit)
     | 'r' :: r => (parseTy fuel r).map fun (t, r') => (.rep t, r')
     | 'o' :: r => (parseTy fuel r).map fun (t, r') => (.opt t, r')
     | 'm' :: '(' :: ')' :: r => some (.msg [], r)
